@@ -365,3 +365,313 @@ Theorem C10_example_damped :
   exists G g, normal_eqs RO [[1; 2]; [0; 3]]%R 2 [1; 1]%R = Some (G, g) /\
               Spec.Solve.nonsingular (dat (damp RO G 1%R)) (nr G).
 Proof. exact damped_instance. Qed.
+
+From Coquelicot Require Import Coquelicot.
+From Compute Require Import Base.Tape Spec.Autodiff Proofs.C10_tape Proofs.C10_tape_den Proofs.C10_tape_grad Proofs.C10_tape_la
+  Proofs.C10_tape_compose Proofs.C10_tape_total.
+Local Close Scope R_scope.
+
+(** ** THE TAPE YIELDS THE TRUE GRADIENT (proofs in Proofs/C10_tape*.v; definitions in Spec/Autodiff.v)
+
+    [Base/Tape.v] models the [reverse] crate: expression AST with let-sharing -> value + Wengert tape (in
+    [add_node] order) -> reverse sweep.  On the reals, for EVERY program built from the node kinds whose recorded
+    partial derivatives are right ([covered]: parameters, let / shared variables, Var+Var, Var+f64, Var-Var,
+    Var-f64, f64-Var, Var*Var, Var*f64, Var/Var, Var/f64, negation, powi with an i32 exponent, exp, sin, cos,
+    ln, sqrt, recip, tanh - i.e. every constructor of the AST except [f64 / Var]), every number of parameters and
+    every point at which the program is differentiable in the usual sense ([smooth_at]), the vector returned by
+    [f(&params, data).grad().wrt(&params)] is the vector of partial derivatives of the program's denotation
+    [den] (Coquelicot's [is_derive] of t |-> den e (upd xs i t) along each coordinate i). *)
+
+(** the reverse sweep, on any well-formed tape (every node a leaf [(idx, idx, 0., 0.)] or depending on older
+    nodes only; any length; a node may be used any number of times - its adjoint accumulates): the entry [k] of
+    [Var::grad]'s result is the tangent of the output node with respect to node [k], where tangents are
+    propagated forward along the recorded weights ([tanf]: 1 at [k], 0 at other leaves,
+    w1 * tangent(d1) + w2 * tangent(d2) elsewhere) *)
+Theorem C10_tape_sweep_is_adjoint :
+  forall (tp : @tape R) (v : @var R) (k : nat),
+    tape_wf tp -> k < tlen tp ->
+    nth k (grad RO tp v) 0%R = tanf (nodes tp) k (snd v).
+Proof. exact grad_adjoint. Qed.
+
+(** what [tanf], [tape_wf], [den], [covered], [smooth_at], [true_grad] are (pinned by unfolding) *)
+Theorem C10_tape_defs_unfold :
+  (forall (nd : @node R) (nds : list (@node R)) (k j : nat),
+     tanf (nd :: nds) k j =
+     if j =? length nds then
+       (if length nds =? k then 1%R
+        else if nd1 nd =? length nds then 0%R
+        else (nw1 nd * tanf nds k (nd1 nd) + nw2 nd * tanf nds k (nd2 nd))%R)
+     else tanf nds k j) /\
+  (forall k j, tanf [] k j = 0%R) /\
+  (forall (nd : @node R) (nds : list (@node R)),
+     nodes_wf (nd :: nds) <->
+     ((nd1 nd = length nds /\ nd2 nd = length nds /\ nw1 nd = 0%R /\ nw2 nd = 0%R) \/
+      (nd1 nd < length nds /\ nd2 nd < length nds)) /\ nodes_wf nds) /\
+  (forall tp : @tape R, tape_wf tp <-> tlen tp = length (nodes tp) /\ nodes_wf (nodes tp)) /\
+  (forall (e : expr R) (data : list (list R)) (x g : list R),
+     true_grad e data x g <->
+     length g = length x /\
+     forall i, i < length x -> is_derive (fun t : R => den e data (upd x i t) []) (nth i x 0%R) (nth i g 0%R)) /\
+  (forall (data : list (list R)) (xs env : list R) (a b : expr R) (c : cst R) (n : Z) (f : ufn) (i : nat),
+     den (EPar i) data xs env = nth i xs 0%R /\
+     den (EVar i) data xs env = nth i env 0%R /\
+     den (ELet a b) data xs env = den b data xs (den a data xs env :: env) /\
+     den (EAdd a b) data xs env = (den a data xs env + den b data xs env)%R /\
+     den (EAddC a c) data xs env = (den a data xs env + cden data c)%R /\
+     den (ESub a b) data xs env = (den a data xs env - den b data xs env)%R /\
+     den (ESubC a c) data xs env = (den a data xs env - cden data c)%R /\
+     den (ECSub c a) data xs env = (cden data c - den a data xs env)%R /\
+     den (EMul a b) data xs env = (den a data xs env * den b data xs env)%R /\
+     den (EMulC a c) data xs env = (den a data xs env * cden data c)%R /\
+     den (EDiv a b) data xs env = (den a data xs env / den b data xs env)%R /\
+     den (EDivC a c) data xs env = (den a data xs env / cden data c)%R /\
+     den (ECDiv c a) data xs env = (cden data c / den a data xs env)%R /\
+     den (ENeg a) data xs env = (- den a data xs env)%R /\
+     den (EPowi a n) data xs env = powerRZ (den a data xs env) n /\
+     den (EFn f a) data xs env =
+       match f with
+       | UExp => exp (den a data xs env) | USin => sin (den a data xs env) | UCos => cos (den a data xs env)
+       | ULn => ln (den a data xs env) | USqrt => R_sqrt.sqrt (den a data xs env)
+       | URecip => (/ den a data xs env)%R | UTanh => tanh (den a data xs env)
+       end) /\
+  (forall (a b : expr R) (c : cst R) (n : Z) (f : ufn) (i : nat),
+     (covered (EPar i) <-> True) /\ (covered (EVar i) <-> True) /\
+     (covered (ELet a b) <-> covered a /\ covered b) /\ (covered (EAdd a b) <-> covered a /\ covered b) /\
+     (covered (ESub a b) <-> covered a /\ covered b) /\ (covered (EMul a b) <-> covered a /\ covered b) /\
+     (covered (EDiv a b) <-> covered a /\ covered b) /\
+     (covered (EAddC a c) <-> covered a) /\ (covered (ESubC a c) <-> covered a) /\ (covered (ECSub c a) <-> covered a) /\
+     (covered (EMulC a c) <-> covered a) /\ (covered (EDivC a c) <-> covered a) /\ (covered (ENeg a) <-> covered a) /\
+     (covered (EFn f a) <-> covered a) /\
+     (covered (ECDiv c a) <-> False) /\
+     (covered (EPowi a n) <-> covered a /\ (- 2 ^ 31 <= n < 2 ^ 31)%Z)) /\
+  (forall (data : list (list R)) (xs env : list R) (a b : expr R) (c : cst R) (n : Z) (f : ufn) (i : nat),
+     (smooth_at (EPar i) data xs env <-> i < length xs) /\
+     (smooth_at (EVar i) data xs env <-> i < length env) /\
+     (smooth_at (ELet a b) data xs env <-> smooth_at a data xs env /\ smooth_at b data xs (den a data xs env :: env)) /\
+     (smooth_at (EAdd a b) data xs env <-> smooth_at a data xs env /\ smooth_at b data xs env) /\
+     (smooth_at (ESub a b) data xs env <-> smooth_at a data xs env /\ smooth_at b data xs env) /\
+     (smooth_at (EMul a b) data xs env <-> smooth_at a data xs env /\ smooth_at b data xs env) /\
+     (smooth_at (EAddC a c) data xs env <-> smooth_at a data xs env /\ cval data c <> None) /\
+     (smooth_at (ESubC a c) data xs env <-> smooth_at a data xs env /\ cval data c <> None) /\
+     (smooth_at (ECSub c a) data xs env <-> smooth_at a data xs env /\ cval data c <> None) /\
+     (smooth_at (EMulC a c) data xs env <-> smooth_at a data xs env /\ cval data c <> None) /\
+     (smooth_at (EDiv a b) data xs env <->
+        smooth_at a data xs env /\ smooth_at b data xs env /\ den b data xs env <> 0%R) /\
+     (smooth_at (EDivC a c) data xs env <-> smooth_at a data xs env /\ cval data c <> None /\ cden data c <> 0%R) /\
+     (smooth_at (ENeg a) data xs env <-> smooth_at a data xs env) /\
+     (smooth_at (EPowi a n) data xs env <-> smooth_at a data xs env /\ ((n < 0)%Z -> den a data xs env <> 0%R)) /\
+     (smooth_at (EFn f a) data xs env <->
+        smooth_at a data xs env /\
+        match f with
+        | UExp | USin | UCos | UTanh => True
+        | ULn | USqrt => (0 < den a data xs env)%R
+        | URecip => den a data xs env <> 0%R
+        end)) /\
+  (forall (data : list (list R)) (c : cst R),
+     cden data c = match cval data c with Some x => x | None => 0%R end).
+Proof.
+  split; [intros; reflexivity|]. split; [intros; reflexivity|]. split; [intros; reflexivity|].
+  split; [intros; reflexivity|]. split; [intros; reflexivity|].
+  split; [intros; repeat split; destruct f; reflexivity|].
+  split; [intros; cbn [covered]; tauto|].
+  split; [|intros; reflexivity].
+  intros. cbn [smooth_at]. destruct f; cbn [usmooth]; tauto.
+Qed.
+
+(** THE GRADIENT: [tape_grad] (fresh tape, parameters as leaves, [f(&params, data).grad().wrt(&params)]) returns,
+    for every covered program, every number of parameters and every smooth point, a vector of the parameters'
+    length whose i-th entry is the i-th partial derivative of the denotation *)
+Theorem C10_tape_grad_is_gradient :
+  forall (e : expr R) (data : list (list R)) (xs : list R),
+    covered e -> smooth_at e data xs [] ->
+    exists g, tape_grad RO e data xs = Some g /\ length g = length xs /\
+      forall i, i < length xs ->
+        is_derive (fun t : R => den e data (upd xs i t) []) (nth i xs 0%R) (nth i g 0%R).
+Proof. exact tape_grad_sound. Qed.
+
+(** the same for the tape of Nesterov SGD (the objective is evaluated on the NON-LEAF look-ahead nodes and the
+    adjoints of those nodes are read): it returns the gradient at the look-ahead point *)
+Theorem C10_tape_grad_la_is_gradient :
+  forall (e : expr R) (data : list (list R)) (xs : list R),
+    covered e -> smooth_at e data xs [] ->
+    exists g, tape_grad_la RO e data xs = Some g /\ length g = length xs /\
+      forall i, i < length xs ->
+        is_derive (fun t : R => den e data (upd xs i t) []) (nth i xs 0%R) (nth i g 0%R).
+Proof. exact tape_grad_la_sound. Qed.
+
+(** ... and the value the tape computes along the way is the denotation *)
+Theorem C10_tape_val_is_denotation :
+  forall (e : expr R) (data : list (list R)) (xs : list R),
+    covered e -> smooth_at e data xs [] -> tape_val RO e data xs = Some (den e data xs []).
+Proof. exact tape_val_sound. Qed.
+
+(** the general form behind them: along ANY differentiable curve of parameter values [P] and let-bound values
+    [E] (tracked by variables on a well-formed tape whose tangents with respect to a node [k] are the curve's
+    derivatives), [eval] succeeds, extends the tape by well-formed nodes, returns the denotation's value, and
+    the tangent of the returned node is the derivative of the denotation along the curve (the chain rule, by
+    induction on the AST; [ELet] shares a node) *)
+Theorem C10_tape_eval_chain_rule :
+  forall (data : list (list R)) (k base : nat) (s0 : R) (e : expr R),
+    covered e ->
+    forall (ps env : list (@var R)) (tp : @tape R) (P E : R -> list R),
+    tape_wf tp -> base <= tlen tp ->
+    (length ps = length (P s0) /\
+     forall j pv, nth_error ps j = Some pv ->
+       snd pv < length (nodes tp) /\ fst pv = nth j (P s0) 0%R /\
+       (k < base -> is_derive (fun s : R => nth j (P s) 0%R) s0 (tanf (nodes tp) k (snd pv)))) ->
+    (length env = length (E s0) /\
+     forall j pv, nth_error env j = Some pv ->
+       snd pv < length (nodes tp) /\ fst pv = nth j (E s0) 0%R /\
+       (k < base -> is_derive (fun s : R => nth j (E s) 0%R) s0 (tanf (nodes tp) k (snd pv)))) ->
+    smooth_at e data (P s0) (E s0) ->
+    exists r tp', eval RO e ps env data tp = Some (r, tp') /\
+      (tape_wf tp' /\ exists new, nodes tp' = new ++ nodes tp) /\
+      snd r < length (nodes tp') /\ fst r = den e data (P s0) (E s0) /\
+      (k < base -> is_derive (fun s : R => den e data (P s) (E s)) s0 (tanf (nodes tp') k (snd r))).
+Proof. exact eval_sound. Qed.
+
+(** THE EXCLUDED NODE KIND (finding reverse:gradient-of-const-over-var): for [c / x] the tape returns [-1/x];
+    the derivative is [-c/x^2]; so the tape's answer is not the derivative unless c = x
+    (c = 3, x = 2: tape -0.5, true -0.75) *)
+Theorem C10_tape_const_over_var_refuted :
+  forall c x : R, x <> 0%R ->
+    tape_grad RO (ECDiv (CLit c) (EPar 0)) [] (x :: nil) = Some ((- (1) / x)%R :: nil) /\
+    is_derive (fun t : R => den (ECDiv (CLit c) (EPar 0)) [] (upd (x :: nil) 0 t) []) x (- c / (x * x))%R /\
+    (c <> x -> ~ is_derive (fun t : R => den (ECDiv (CLit c) (EPar 0)) [] (upd (x :: nil) 0 t) []) x (- (1) / x)%R).
+Proof. exact tape_cdiv_wrong. Qed.
+Theorem C10_tape_const_over_var_instance :
+  tape_grad RO (ECDiv (CLit 3%R) (EPar 0)) [] (2%R :: nil) = Some ((- (1) / 2)%R :: nil) /\
+  is_derive (fun t : R => (3 / t)%R) 2%R (- 3 / (2 * 2))%R /\
+  ~ is_derive (fun t : R => (3 / t)%R) 2%R (- (1) / 2)%R.
+Proof.
+  destruct (tape_cdiv_wrong 3%R 2%R ltac:(apply not_eq_sym, Rlt_not_eq, Rlt_0_2)) as (H1 & H2 & H3).
+  split; [exact H1|]. split; [exact H2|]. apply H3. apply not_eq_sym, Rlt_not_eq.
+  apply (Rplus_lt_reg_l (-2)%R). replace (-2 + 2)%R with 0%R by ring. replace (-2 + 3)%R with 1%R by ring. exact Rlt_0_1.
+Qed.
+
+(** the gradient at a point is unique, so "a function returning the true gradient" is determined on smooth points *)
+Theorem C10_true_gradient_unique :
+  forall (e : expr R) (data : list (list R)) (x g g' : list R),
+    true_grad e data x g -> true_grad e data x g' -> g = g'.
+Proof. exact true_grad_unique. Qed.
+
+(** the gradient functions handed to the optimisers below: the tape's answer, made total *)
+Theorem C10_tape_gradient_unfold :
+  forall (e : expr R) (data : list (list R)) (x : list R),
+    tape_gradient e data x = match tape_grad RO e data x with Some g => g | None => repeat 0%R (length x) end /\
+    tape_gradient_la e data x = match tape_grad_la RO e data x with Some g => g | None => repeat 0%R (length x) end /\
+    (forall b, tape_gradient_sgd b e data x = if b then tape_gradient_la e data x else tape_gradient e data x) /\
+    length (tape_gradient e data x) = length x /\ length (tape_gradient_la e data x) = length x.
+Proof.
+  intros e data x. split; [reflexivity|]. split; [reflexivity|]. split; [intros [|]; reflexivity|].
+  split; [apply tape_gradient_len|apply tape_gradient_la_len].
+Qed.
+
+(** ** COMPOSED: [C10_adam_is_recurrence] / [C10_adam_run] / [C10_sgd_is_recurrence] / [C10_sgd_run] /
+    [C10_early_stop_means_fixed] instantiated with the tape gradient.
+
+    For every covered objective program and EVERY function [G] that returns the vector of partial derivatives of
+    the program's denotation at its smooth points (the "true gradient"; unique there), as long as the points at
+    which the gradient is evaluated stay smooth: Adam with the [reverse] tape returns the iterate of Kingma-Ba's
+    recurrence DRIVEN BY [G] - the iterate [k] when no convergence flag is raised before, in general the
+    iterate [j <= k] of the first raised flag, and then every parameter moved by less than 2^-52 of its scale *)
+Theorem C10_adam_follows_true_gradient :
+  forall (e : expr R) (data : list (list R)) (G : list R -> list R),
+    covered e ->
+    (forall x, smooth_at e data x [] -> true_grad e data x (G x)) ->
+    forall (h : adam_hp (T:=R)) (k : nat) (th0 : list R),
+    (forall j, j < k -> smooth_at e data (adam_theta RO G h j th0) []) ->
+    (forall j, 1 <= j < k ->
+       converged RO (adam_theta RO G h j th0) (adam_theta RO G h (j - 1) th0) = false) ->
+    adam RO (tape_gradient e data) h k th0 = adam_theta RO G h k th0.
+Proof. exact adam_follows_true_gradient. Qed.
+
+Theorem C10_adam_run_true_gradient :
+  forall (e : expr R) (data : list (list R)) (G : list R -> list R),
+    covered e ->
+    (forall x, smooth_at e data x [] -> true_grad e data x (G x)) ->
+    forall (h : adam_hp (T:=R)) (k : nat) (th0 : list R),
+    (forall j, j < k -> smooth_at e data (adam_theta RO G h j th0) []) ->
+    exists j, j <= k /\
+      adam RO (tape_gradient e data) h k th0 = adam_theta RO G h j th0 /\
+      (forall i, 1 <= i < j ->
+         converged RO (adam_theta RO G h i th0) (adam_theta RO G h (i - 1) th0) = false) /\
+      (j < k -> 1 <= j /\
+         forall i, i < length th0 ->
+           (Rabs (nth i (adam_theta RO G h j th0) 0 - nth i (adam_theta RO G h (j - 1) th0) 0)
+            < feps RO * change_scale (nth i (adam_theta RO G h j th0) 0) (nth i (adam_theta RO G h (j - 1) th0) 0))%R).
+Proof. exact adam_run_true_gradient. Qed.
+
+(** SGD: plain and classical momentum differentiate at the parameters, Nesterov at the look-ahead point
+    [theta - mom * u] with the look-ahead tape; [sgd_at] is that evaluation point *)
+Theorem C10_sgd_follows_true_gradient :
+  forall (e : expr R) (data : list (list R)) (G : list R -> list R),
+    covered e ->
+    (forall x, smooth_at e data x [] -> true_grad e data x (G x)) ->
+    forall (h : sgd_hp (T:=R)) (k : nat) (th0 : list R),
+    (forall j, j < k ->
+       smooth_at e data (sgd_at RO h (fst (sgd_iter RO G h j th0)) (snd (sgd_iter RO G h j th0))) []) ->
+    (forall j, 1 <= j < k ->
+       converged RO (sgd_theta RO G h j th0) (sgd_theta RO G h (j - 1) th0) = false) ->
+    sgd RO (tape_gradient_sgd (s_nesterov h) e data) h k th0 = sgd_theta RO G h k th0.
+Proof. exact sgd_follows_true_gradient. Qed.
+
+Theorem C10_sgd_run_true_gradient :
+  forall (e : expr R) (data : list (list R)) (G : list R -> list R),
+    covered e ->
+    (forall x, smooth_at e data x [] -> true_grad e data x (G x)) ->
+    forall (h : sgd_hp (T:=R)) (k : nat) (th0 : list R),
+    (forall j, j < k ->
+       smooth_at e data (sgd_at RO h (fst (sgd_iter RO G h j th0)) (snd (sgd_iter RO G h j th0))) []) ->
+    exists j, j <= k /\
+      sgd RO (tape_gradient_sgd (s_nesterov h) e data) h k th0 = sgd_theta RO G h j th0 /\
+      (forall i, 1 <= i < j ->
+         converged RO (sgd_theta RO G h i th0) (sgd_theta RO G h (i - 1) th0) = false) /\
+      (j < k -> 1 <= j /\
+         forall i, i < length th0 ->
+           (Rabs (nth i (sgd_theta RO G h j th0) 0 - nth i (sgd_theta RO G h (j - 1) th0) 0)
+            < feps RO * change_scale (nth i (sgd_theta RO G h j th0) 0) (nth i (sgd_theta RO G h (j - 1) th0) 0))%R).
+Proof. exact sgd_run_true_gradient. Qed.
+
+(** the same with the gradient function in exactly the shape the correspondence check runs on binary64
+    ([Corr/C10.v]: [total g x = match g x with Some v => v | None => [] end], [g] the tape gradient - the look-ahead
+    tape under Nesterov momentum): the loops evaluate the gradient at their iterates only *)
+Theorem C10_adam_follows_true_gradient_corr_term :
+  forall (e : expr R) (data : list (list R)) (G : list R -> list R),
+    covered e ->
+    (forall x, smooth_at e data x [] -> true_grad e data x (G x)) ->
+    forall (h : adam_hp (T:=R)) (k : nat) (th0 : list R),
+    (forall j, j < k -> smooth_at e data (adam_theta RO G h j th0) []) ->
+    (forall j, 1 <= j < k ->
+       converged RO (adam_theta RO G h j th0) (adam_theta RO G h (j - 1) th0) = false) ->
+    adam RO (fun x => match tape_grad RO e data x with Some v => v | None => [] end) h k th0 = adam_theta RO G h k th0.
+Proof. exact adam_total_follows_true_gradient. Qed.
+
+Theorem C10_sgd_follows_true_gradient_corr_term :
+  forall (e : expr R) (data : list (list R)) (G : list R -> list R),
+    covered e ->
+    (forall x, smooth_at e data x [] -> true_grad e data x (G x)) ->
+    forall (h : sgd_hp (T:=R)) (k : nat) (th0 : list R),
+    (forall j, j < k ->
+       smooth_at e data (sgd_at RO h (fst (sgd_iter RO G h j th0)) (snd (sgd_iter RO G h j th0))) []) ->
+    (forall j, 1 <= j < k ->
+       converged RO (sgd_theta RO G h j th0) (sgd_theta RO G h (j - 1) th0) = false) ->
+    sgd RO (fun x => match (if s_nesterov h then tape_grad_la RO e data else tape_grad RO e data) x with
+                     | Some v => v | None => [] end) h k th0 = sgd_theta RO G h k th0.
+Proof. exact sgd_total_follows_true_gradient. Qed.
+
+(** the hypotheses are satisfiable: [G := tape_gradient e data] is such a function for every covered program, and
+    the program  let v = p0 - 3. in v*v + exp(p1)*v + p1.powi(2)  (let-sharing: v is used three times) is covered
+    and smooth at every point of R^2, with the expected denotation *)
+Theorem C10_tape_example :
+  (forall (e : expr R) (data : list (list R)), covered e ->
+     forall x, smooth_at e data x [] -> true_grad e data x (tape_gradient e data x)) /\
+  (let prog := ELet (ESubC (EPar 0) (CLit 3%R))
+                    (EAdd (EAdd (EMul (EVar 0) (EVar 0)) (EMul (EFn UExp (EPar 1)) (EVar 0))) (EPowi (EPar 1) 2)) in
+   covered prog /\
+   forall x y : R, smooth_at prog [] (x :: y :: nil) [] /\
+                   den prog [] (x :: y :: nil) [] = ((x - 3) * (x - 3) + exp y * (x - 3) + y * y)%R).
+Proof.
+  split; [exact tape_gradient_is_a_G|]. split; [exact example_covered|].
+  intros x y. split; [apply example_smooth|apply example_den].
+Qed.
